@@ -235,6 +235,7 @@ type Ctx struct {
 	Trace    bool
 	Notes    []string
 	curState *State
+	MapReverse bool
 	replayPtrs map[uint64]*Object
 	replayFresh map[*Object]bool
 	replayPost bool
